@@ -4,6 +4,7 @@ C01 / C08 — the importer step (file → grid of cells), model `Model.Importer`
 * `C01_csv_cells_verbatim`: through CSV every cell position reads the text written there (true since fix D46 —
   `csv_skipping_reader_moves_rows` shows what the skipping reader did to a one-column sheet).
 * `C01_csv_rows_verbatim`: a CSV grid without blank-line records is handed on exactly as written.
+  (`csvGrid` is `Model.CSV.keepRows`, which `Props.C01Csv.C01_csv_text_roundtrip` derives from the reader's text-level model.)
 * `C08_xlsx_cells_verbatim`: through XLSX every cell position reads the same text as in the written grid (blank beyond
   a row's / the grid's end) — only trailing blanks are not stored; so the XLSX twin and the CSV twin of one grid agree
   cell by cell (`C08_twins_cell_by_cell`).
@@ -69,59 +70,79 @@ theorem C08_xlsx_cells_verbatim (rows : List (List Str)) (i j : Nat) :
   rw [getD_trimRight, getD_map_trim]
   exact getD_trimRight (rows.getD i []) j
 
-theorem getD_map_of_nil {f : List Str → List Str} (hf : f [] = []) (rows : List (List Str)) (i : Nat) :
-    (rows.map f).getD i [] = f (rows.getD i []) := by
-  induction rows generalizing i with
-  | nil => simp [hf]
-  | cons r rs ih =>
-    cases i with
-    | zero => simp
-    | succ i => simpa using ih i
+theorem getD_replicate_append_right (p i : Nat) (l : List (List Str)) :
+    (List.replicate p ([] : List Str) ++ l).getD (p + i) [] = l.getD i [] := by
+  rw [List.getD_eq_getElem?_getD, List.getElem?_append_right (by simp), List.length_replicate,
+    show p + i - p = i by omega, ← List.getD_eq_getElem?_getD]
+
+theorem getD_replicate_append_left (p i : Nat) (l : List (List Str)) (h : i < p) :
+    (List.replicate p ([] : List Str) ++ l).getD i [] = [] := by
+  rw [List.getD_eq_getElem?_getD, List.getElem?_append_left (by simpa using h)]
+  simp [h]
+
+/-- rows of `keepRows … p`: `p` rows without cells, then the written rows (blank-line records without cells) -/
+theorem keepRows_cells (b : Bool) : ∀ (rows : List (List Str)) (p : Nat),
+    (∀ i j, cellAt (Model.CSV.keepRows b rows p) (p + i) j = cellAt rows i j) ∧
+    (∀ i j, i < p → cellAt (Model.CSV.keepRows b rows p) i j = [])
+  | [], p => by
+    simp [Model.CSV.keepRows, cellAt, Spec.Grid.cellAt]
+  | r :: rs, p => by
+    have ih1 := keepRows_cells b rs (p + 1)
+    have ih0 := keepRows_cells b rs 0
+    by_cases hb : r = [[]] ∧ b = true
+    · have hk : Model.CSV.keepRows b (r :: rs) p = Model.CSV.keepRows b rs (p + 1) := by
+        simp only [Model.CSV.keepRows, hb, and_self, if_true]
+      rw [hk]
+      refine ⟨fun i j => ?_, fun i j hi => ih1.2 i j (by omega)⟩
+      cases i with
+      | zero =>
+        rw [show p + 0 = p from rfl, ih1.2 p j (by omega), hb.1]
+        cases j <;> simp [cellAt, Spec.Grid.cellAt]
+      | succ k =>
+        rw [show p + (k + 1) = (p + 1) + k by omega, ih1.1 k j]
+        simp [cellAt, Spec.Grid.cellAt]
+    · have hk : Model.CSV.keepRows b (r :: rs) p = List.replicate p [] ++ r :: Model.CSV.keepRows b rs 0 := by
+        simp only [Model.CSV.keepRows, hb, if_false]
+      rw [hk]
+      refine ⟨fun i j => ?_, fun i j hi => ?_⟩
+      · unfold cellAt Spec.Grid.cellAt
+        rw [getD_replicate_append_right]
+        cases i with
+        | zero => simp
+        | succ k =>
+          have := ih0.1 k j
+          simp only [Nat.zero_add, cellAt, Spec.Grid.cellAt] at this
+          simpa using this
+      · unfold cellAt Spec.Grid.cellAt
+        rw [getD_replicate_append_left p i _ hi]
+        simp
 
 theorem C01_csv_cells_verbatim (q : Bool) (rows : List (List Str)) (i j : Nat) :
     cellAt (csvGrid q rows) i j = cellAt rows i j := by
-  unfold csvGrid
-  cases q
-  · simp only [Bool.false_eq_true, if_false]
-    unfold cellAt Spec.Grid.cellAt
-    rw [getD_trimRight, getD_map_of_nil (by simp [blankLine])]
-    by_cases hb : blankLine (rows.getD i []) = true
-    · have : rows.getD i [] = [[]] := by simpa [blankLine] using hb
-      rw [this]
-      cases j <;> simp [blankLine]
-    · rw [if_neg hb]
-  · simp
+  have := (keepRows_cells (!q) rows 0).1 i j
+  simpa [csvGrid] using this
 
-theorem trimRight_id {α} (p : α → Bool) (l : List α) (h : ∀ x ∈ l, p x = false) : trimRight p l = l := by
-  unfold trimRight
-  have : l.reverse.dropWhile p = l.reverse := by
-    cases hr : l.reverse with
-    | nil => rfl
-    | cons a t =>
-      have : a ∈ l := by rw [← List.mem_reverse, hr]; simp
-      simp [h a this]
-  rw [this, List.reverse_reverse]
+theorem keepRows_id (b : Bool) (rows : List (List Str)) (h : ∀ r ∈ rows, r ≠ [[]]) (p : Nat) :
+    Model.CSV.keepRows b rows p = List.replicate (if rows = [] then 0 else p) [] ++ rows := by
+  induction rows generalizing p with
+  | nil => simp [Model.CSV.keepRows]
+  | cons r rs ih =>
+    have hr : r ≠ [[]] := h r (by simp)
+    have := ih (fun x hx => h x (by simp [hx])) 0
+    simp only [Model.CSV.keepRows, hr, false_and, if_false, this]
+    simp
 
-theorem C01_csv_rows_verbatim (q : Bool) (rows : List (List Str)) (h : ∀ r ∈ rows, r ≠ [[]] ∧ r ≠ []) :
+theorem C01_csv_rows_verbatim (q : Bool) (rows : List (List Str)) (h : ∀ r ∈ rows, r ≠ [[]]) :
     csvGrid q rows = rows := by
   unfold csvGrid
-  split
-  · rfl
-  · have hm : (rows.map fun r => if blankLine r then [] else r) = rows := by
-      conv => rhs; rw [← List.map_id rows]
-      apply List.map_congr_left
-      intro r hr
-      simp [blankLine, (h r hr).1]
-    rw [hm]
-    apply trimRight_id
-    intro r hr
-    simpa using (h r hr).2
+  rw [keepRows_id _ rows h 0]
+  simp
 
 /-- what the reader did before fix D46 (empty lines skipped): the one-column sheet `Name / (blank note) / type / data`
 lost its blank row, so the type row was found one line too early -/
 theorem csv_skipping_reader_moves_rows :
     let rows : List (List Str) := [[[78]], [[]], [[116]], [[49]]]
-    cellAt (rows.filter (fun r => !blankLine r)) 2 0 = [49] ∧ cellAt (csvGrid false rows) 2 0 = [116] := by
+    cellAt (rows.filter (fun r => r != [[]])) 2 0 = [49] ∧ cellAt (csvGrid false rows) 2 0 = [116] := by
   decide
 
 /-- the CSV twin and the XLSX twin of one grid agree at every cell position -/
